@@ -39,9 +39,15 @@ NOT_SHOWN = {
          "cancel by triangle_field_flip, B/H/J/M add when the inside test of the union is the disjunction and the observer is not inside both; tetra_pair_glue / tetra_pair_is_mesh / "
          "tetra_list_glue: any list of Tetrahedra glued along full faces = the TriangularMesh of the boundary). NOT shown: observers within the on_edge tolerance of a wall's edge "
          "(hypothesis TriOffEdges; there the code's on-edge substitute does not cancel); parts whose common wall is triangulated differently on the two sides, or cut through the "
-         "interior of faces: Triangle(a,b,c) = Triangle(a,m,c) + Triangle(m,b,c) for m on the edge a b is proved only up to the solid-angle terms (triangle_split_additive_partial: same normal, "
-         "edge integral additive over the subdivision in every branch of the cancellation-free form - triangle_edge_integral_split -, the new edge cancels; the hypothesis SolidAngleAdditive "
-         "- the Van Oosterom-Strackee arctan values with the 2 pi clamp add - is proved only in the sector of the triangle's plane where all three vanish); "
+         "interior of faces, EXCEPT the cut through a point of an edge: Triangle(a,b,c) = Triangle(a,m,c) + Triangle(m,b,c) for m on the edge a b is PROVED for every observer off the "
+         "triangle's plane at which the code does not clamp the whole's solid angle, outside the on_edge tolerance of the edges involved (triangle_split_additive: same normal, edge integral "
+         "additive over the subdivision in every branch of the cancellation-free form - triangle_edge_integral_split -, the new edge cancels, and the Van Oosterom-Strackee values add: "
+         "z(a,m,c) z(m,b,c) = k z(a,b,c) with k > 0 real - solid_angle_factorisation -, hence additive modulo 4 pi off the five closed segments - solid_angle_additive_mod_2pi - and exactly "
+         "off the plane - solid_angle_raw_additive); a Tetrahedron cut through a point of one edge into two Tetrahedra, all four fields (tetra_edge_split_additive, inside tests "
+         "tetra_inside_edge_split). The clamp |Omega| > 6.2831853 -> 0 does NOT commute with the subdivision: off the plane SolidAngleAdditive <=> the whole is not clamped "
+         "(solid_angle_additive_iff), false for an observer 1e-10 above the interior (solid_angle_additive_fails_near_sheet; listed finding representation:triangle-split:clamp-band). "
+         "NOT shown for the triangle cut: observers IN the plane of the triangle (proved only in the sector where all three solid angles vanish: solid_angle_additive_coplanar; modulo 4 pi "
+         "everywhere off the closed segments), cuts that are not through a vertex and a point of the opposite edge; "
          "that the ray-casting inside test of the glued mesh IS the disjunction of the parts' tests (C16 / oracle `glued`: random convex hull cut by a plane through its centroid, "
          "whole = sum of the two hulls, inside and outside, lengths 1e-6 ... 1e3)",
          "full_ring_is_cylinder_difference / partial_ring_is_segment unfold the `if` of BHJM_cylinder_segment_internal: the object-oriented wrapper BYPASSES the segment formulas at "
